@@ -11,7 +11,8 @@ list / dict / tuple / set (the code as it is after commit 0d6c28f).
 The Union loop is written as in the code: a `vals` list that receives values,
 the original string (the `str` rescue) and exception objects, `break` on the
 first success, and the result `[v for v in vals if not isinstance(v, Exception)][-1]`
-(commit 759e4ed).  `sort_subtypes_for_union` is a stable sort on a key with
+(commit 759e4ed).  Each member is tried on its own copy of the value (`recreate_branches(val)`, commit
+5a105c5), which is what a value-level function does anyway.  `sort_subtypes_for_union` is a stable sort on a key with
 three classes; the loop walks the original member list once per class, which
 visits the members in the same order and keeps the recursion structural.
 
@@ -230,16 +231,12 @@ def adapt (O : Oracle) (ser : Bool) (orig : Option String) : Ty → Val → Exce
         if ser then .ok (.list ys)
         else if hashableAll ys then .ok (.set (pySet ys)) else .error .type
   | .list t, v =>
-    match v with
-    | .dict _ => .error .value
-    | .str _ => .error .value
-    | v =>
-      match seqItems v with
-      | .none => .error .value
-      | some xs =>
-        match allM (fun x => adapt O ser .none t x) xs with
-        | .error e => .error e
-        | .ok ys => .ok (.list ys)
+    match seqItems v with                     -- a list, or an Iterable that is not a str / mapping: `list(val)`
+    | .none => .error .value
+    | some xs =>
+      match allM (fun x => adapt O ser .none t x) xs with
+      | .error e => .error e
+      | .ok ys => .ok (.list ys)
   | .dict k t, v =>
     match v with
     | .dict kvs =>
